@@ -858,7 +858,7 @@ func (g *g2l) translateFunc(key string) (u *g2lUnit) {
 		f.fail("no type information")
 	}
 	sig := obj.Type().(*types.Signature)
-	if sig.Variadic() {
+	if sig.Variadic() && !g.refsOn() { // go2lean_refs.go: the last parameter is the slice
 		f.fail("variadic function")
 	}
 	void := sig.Results().Len() == 0
